@@ -9,6 +9,7 @@ CONSTANTS Keys = {"a"}
           MaxObj = 3
           Depth = 0
           KeepHist = FALSE
+          SetAdjs = {"m"}
           Fan = 0
 INIT Init
 NEXT Next
